@@ -16,6 +16,7 @@ import sys
 import threading
 
 from . import common
+from . import c15_sched as S
 
 PROPERTY = 'C15'
 LEAN_TARGETS = ['CpProofs.C15', 'drv_c15']
@@ -116,6 +117,11 @@ class _FakeTime:
 
     def sleep(self, secs):
         me = threading.current_thread()
+        w = S.world()
+        if w is not None and w.sched.active and me not in self.retired:
+            # interleaving scenario: the expiry thread is the managed thread 'X', parked in its sleep()
+            if w.sched.park_expiry() and w.sched.active:
+                return
         with self.cv:
             if me in self.retired:
                 raise SystemExit
@@ -203,6 +209,9 @@ class _Env:
         class Root:
             @cherrypy.expose
             def default(self, *args, **kwargs):
+                w = S.world()
+                if w is not None:
+                    w.sched.yield_point(('handler', None))
                 cur = env.cur
                 cur['gen'] += 1
                 g = cur['gen']
@@ -256,6 +265,7 @@ class _Env:
         def end_hook():
             r = cherrypy.serving.request
             env.tls.flags = (getattr(r, 'cached', None), getattr(r, 'cacheable', None))
+            env.tls.rtime = getattr(cherrypy.serving.response, 'time', None)
         self.end_hook = end_hook
 
     @classmethod
@@ -274,6 +284,8 @@ class _Env:
                       'tools.encode.on': bool(cfg.get('encode')),
                       'request.show_tracebacks': False,
                       'hooks.on_end_resource': self.end_hook}}
+        if cfg.get('cache_class') is not None:
+            conf['/']['tools.caching.cache_class'] = cfg['cache_class']
         return self.cherrypy.Application(self.root, '', conf)
 
     def drop_cache(self):
@@ -355,6 +367,7 @@ def do_request(env, app, op, prods):
     env.tls.plan = plan
     env.tls.prod = None
     env.tls.flags = None
+    env.tls.rtime = None
     status, hs, body, aborted, abandoned = env.call(app, method, path, qs, req_headers(op),
                                                     abandon=plan.get('abandon'))
     hd = {}
@@ -363,7 +376,8 @@ def do_request(env, app, op, prods):
     flags = env.tls.flags
     o = {'method': method, 'url': [path, qs], 'status': status, 'headers': [list(x) for x in hs],
          'body': body.decode('latin-1'), 'xgen': hd.get('X-Gen'), 'age': hd.get('Age'),
-         'flags': list(flags) if flags else None, 'time': env.clock.now, 'handler_gen': None,
+         'flags': list(flags) if flags else None, 'time': env.clock.now, 'rtime': env.tls.rtime,
+         'handler_gen': None,
          'aborted': aborted, 'abandoned': abandoned}
     p = env.tls.prod
     if p is not None:
@@ -548,6 +562,476 @@ def check_stampede(ctx, scns):
 
 
 # ----------------------------------------------------------------------------------------------
+# interleaving scenarios: real request threads + the real expiry thread under the deterministic scheduler
+# (harness/c15_sched.py), one shared-state access per step, compared step by step with CpModel.CacheConc
+# ----------------------------------------------------------------------------------------------
+BASE_URL = 'http://h'
+MAX_ACTS = 600
+
+
+def _install_conc(env):
+    """Rebind the names through which caching.py reaches its shared objects (restored by _uninstall_conc)."""
+    caching = env.caching
+    saved = {'threading': caching.threading, 'AntiStampedeCache': caching.AntiStampedeCache,
+             'dict': caching.__dict__.get('dict', None)}
+    asc, mc = S.make_classes(caching)
+    caching.threading = S.ThreadingShim()
+    caching.AntiStampedeCache = asc
+    caching.dict = S.DictNS
+    return saved, mc
+
+
+def _uninstall_conc(env, saved):
+    caching = env.caching
+    caching.threading = saved['threading']
+    caching.AntiStampedeCache = saved['AntiStampedeCache']
+    if saved['dict'] is None:
+        caching.__dict__.pop('dict', None)
+    else:
+        caching.dict = saved['dict']
+
+
+def _variant_gen(v):
+    try:
+        return str(dict.get(v[1], 'X-Gen'))
+    except Exception:
+        return '?'
+
+
+def _hexkey(k):
+    k = list(k)
+    return '.'.join(hexs(x) for x in k) if k else '_'
+
+
+def _rel(uri):
+    return uri[len(BASE_URL):] if isinstance(uri, str) and uri.startswith(BASE_URL) else str(uri)
+
+
+def _ticks(t):
+    return int(round((t - T0) * TPS))
+
+
+def _done_token(o):
+    return canon_real({'obs': [o], 'final': None})[0][0]
+
+
+def snap_real(world, names, obs):
+    cache = world.cache
+    st = ','.join('%s>%s' % (hexs(_rel(u)), getattr(uc, '_c15_id', '?')) for u, uc in dict.items(cache.store))
+    ucs = []
+    for uc in world.ucs:
+        slots = []
+        for k, v in dict.items(uc):
+            if isinstance(v, S.SharedEvent):
+                slots.append('%s=E%s' % (_hexkey(k), v._c15_id))
+            else:
+                slots.append('%s=V%s' % (_hexkey(k), _variant_gen(v)))
+        ucs.append('%d:%s' % (uc._c15_id, ','.join(slots)))
+    evs = ','.join('%d:%s:%d' % (e._c15_id, '-' if e._result is None else _variant_gen(e._result),
+                                 1 if e._flag else 0) for e in world.evs)
+    ex = ','.join('%d>%s' % (_ticks(t), getattr(b, '_c15_id', '?')) for t, b in dict.items(cache.expirations))
+    bk = ';'.join('%d:%s' % (b._c15_id, '+'.join('%d/%s/%s' % (e[0], hexs(_rel(e[1])), _hexkey(e[2]))
+                                                 for e in b.raw())) for b in world.buckets)
+    th = []
+    for n in names:
+        stt = world.sched.threads[n]
+        if stt.status == 'done':
+            th.append(_done_token(obs[n]) if obs.get(n) is not None else 'EXC')
+        else:
+            th.append(stt.pending[0])
+    x = world.sched.threads.get('X')
+    xp = x.pending[0] if x is not None and x.pending else '?'
+    return 'st[%s]uc[%s]ev[%s]ex[%s]bk[%s]cur=%d;th[%s]xp=%s' % (
+        st, ';'.join(ucs), evs, ex, bk, cache.__dict__.get('_c15_cursize', 0), ','.join(th), xp)
+
+
+def conc_line(scn, acts):
+    c = scn['cfg']
+    out = ['K:%d:%d:%d:%d:%d' % (c['delay'], c['maxobjects'], c['maxobj_size'], c['maxsize'],
+                                 1 if scn['waits'] else 0)]
+    for a in acts:
+        if a[0] == 'N':
+            out.append('N:' + model_line({'cfg': c, 'ops': [scn['reqs'][a[1]]]}).split(' ', 1)[1][2:])
+        elif a[0] == 't':
+            out.append('t%d' % a[1])
+        elif a[0] == 'w':
+            out.append('w%d' % a[1])
+        elif a[0] == 'x':
+            out.append('x')
+        elif a[0] == 'T':
+            out.append('T%d' % a[1])
+    return ' '.join(out)
+
+
+class _Strategy:
+    """Chooses the next act from what the real threads are parked in front of (recorded: a scenario is then
+    replayed from its concrete act list)."""
+
+    def __init__(self, scn, rng):
+        self.scn = scn
+        self.rng = rng
+        self.plan = list(scn.get('plan') or [])
+        self.last = None
+
+    def next(self, view):
+        """view: {'spawned': n, 'total': n, 'pending': {j: label|None(done)}, 'set': {j: event is set}, 'xp': label}"""
+        rng = self.rng
+        # scripted prefix: ['run', j] = spawn (if needed) and run thread j to its end; ['T', n]; ['X'] = a whole pass;
+        # ['until', j, label, k] = run j until it is parked in front of its k-th `label`
+        while self.plan:
+            item = self.plan[0]
+            if item[0] == 'T':
+                self.plan.pop(0)
+                return ['T', item[1]]
+            if item[0] == 'X':
+                if item[-1] == 'started' and view['xp'] == 'sleep':
+                    self.plan.pop(0)
+                    continue
+                if item[-1] != 'started':
+                    item.append('started')
+                return ['x']
+            j = item[1]
+            if j >= view['total']:
+                self.plan.pop(0)
+                continue
+            if j >= view['spawned']:
+                return ['N', view['spawned']]
+            lab = view['pending'].get(j)
+            if lab is None:
+                self.plan.pop(0)
+                continue
+            if item[0] == 'until':
+                if lab == item[2]:
+                    item[3] -= 1
+                    if item[3] <= 0:
+                        self.plan.pop(0)
+                        continue
+            if lab == 'ev.wait' and not view['set'].get(j):
+                if item[0] == 'until':
+                    self.plan.pop(0)         # cannot get further without a timeout: hand over to the others
+                    continue
+                return ['w', j]
+            return ['t', j]
+        live = [j for j, lab in view['pending'].items() if lab is not None]
+        runnable = [j for j in live if view['pending'][j] != 'ev.wait' or view['set'].get(j)]
+        choices = []
+        if view['spawned'] < view['total']:
+            choices += [['N', view['spawned']]] * (3 if not live else 1)
+        if self.last in runnable and rng.random() < 0.55:
+            return ['t', self.last]
+        for j in runnable:
+            choices += [['t', j]] * 4
+        for j in live:
+            if j not in runnable:
+                choices += [['w', j]] * (1 if runnable else 4)
+        if view['xp'] != 'sleep':
+            choices += [['x']] * 4
+        elif rng.random() < 0.35:
+            choices += [['x']] * 2
+        if rng.random() < 0.25:
+            d = self.scn['cfg']['delay'] * TPS
+            choices += [['T', rng.choice([1, 2, d - 1, d, d + 1, 4])]]
+        if not choices:
+            return None
+        a = rng.choice(choices)
+        if a[0] == 't':
+            self.last = a[1]
+        return a
+
+
+def run_conc(scn, rng=None):
+    """Run one interleaving scenario on the real code.  Returns {'acts', 'snaps', 'obs', 'prods', 'spans', ...}."""
+    import random
+    env = _Env.get()
+    cp = env.cherrypy
+    env.drop_cache()
+    env.clock.now = T0
+    env.cur = {'gen': 0, 'plan': None}
+    sched = S.Sched()
+    world = S.World(sched)
+    saved, mc = _install_conc(env)
+    S._world[0] = world
+    names = []
+    obs, prods, spans, errors = {}, {}, {}, {}
+    acts, snaps = [], []
+    try:
+        app = env.new_app(dict(scn['cfg'], timeout=(30 if scn['waits'] else None), cache_class=mc))
+        # the process-wide cache is created by the real tool code: an invalidating request to an unrelated URL
+        do_request(env, app, ['R', 'POST', '/c15-warm-up', '', {}, None, None,
+                              {'vary': [], 'size': 12, 'ns': False, 'pnc': False}], {})
+        env.cur['gen'] = 0
+        world.cache = getattr(cp, '_cache', None)
+        if world.cache is None or not isinstance(world.cache, mc):
+            raise common.HarnessError('interleaving scenario: tools.caching.cache_class was not honoured')
+        if not sched.x_registered.wait(20):
+            raise common.HarnessError('interleaving scenario: expiry thread did not reach sleep()')
+
+        def spawn(k):
+            op = scn['reqs'][k]
+
+            def fn():
+                obs[k] = do_request(env, app, op, prods)
+            names.append(k)
+            sched.spawn(k, fn)
+
+        def view():
+            pend, isset = {}, {}
+            for k in names:
+                stt = sched.threads[k]
+                if stt.status == 'done':
+                    pend[k] = None
+                else:
+                    pend[k] = stt.pending[0]
+                    if stt.pending[0] == 'ev.wait':
+                        isset[k] = bool(stt.pending[1]._flag)
+            return {'spawned': len(names), 'total': len(scn['reqs']), 'pending': pend, 'set': isset,
+                    'xp': sched.threads['X'].pending[0]}
+
+        def do(a):
+            if a[0] == 'N':
+                if a[1] != len(names) or a[1] >= len(scn['reqs']):
+                    return
+                spawn(a[1])
+            elif a[0] in ('t', 'w'):
+                k = a[1]
+                if k in sched.threads:
+                    if k not in spans and sched.threads[k].status != 'done':
+                        spans[k] = [len(acts), None]
+                    sched.step(k, timeout=(a[0] == 'w'))
+                    if sched.threads[k].status == 'done' and spans.get(k) and spans[k][1] is None:
+                        spans[k][1] = len(acts)
+                        if sched.threads[k].exc is not None:
+                            errors[k] = repr(sched.threads[k].exc)
+            elif a[0] == 'x':
+                if sched.pending('X') == ('sleep',):
+                    sched.step('X')              # sleep() returns, the pass reads the clock ...
+                    if sched.pending('X')[0] == 'exp.copy':
+                        sched.step('X')          # ... and copies the expirations
+                else:
+                    sched.step('X')
+            elif a[0] == 'T':
+                env.clock.now += a[1] / TPS
+
+        if scn.get('acts') is not None:
+            for a in scn['acts']:
+                do(a)
+                acts.append(list(a))
+                snaps.append(snap_real(world, names, obs))
+        else:
+            strat = _Strategy(scn, rng or random.Random(scn.get('seed', 0)))
+            while True:
+                v = view()
+                if v['spawned'] == v['total'] and all(l is None for l in v['pending'].values()) \
+                        and v['xp'] == 'sleep' and not strat.plan:
+                    break
+                a = strat.next(v)
+                if a is None:
+                    break
+                do(a)
+                acts.append(list(a))
+                snaps.append(snap_real(world, names, obs))
+                if len(acts) > MAX_ACTS:
+                    raise common.HarnessError('interleaving scenario did not finish within %d acts' % MAX_ACTS)
+        unfinished = [k for k in names if sched.threads[k].status != 'done']
+        return {'acts': acts, 'snaps': snaps, 'obs': obs, 'prods': prods, 'spans': spans, 'errors': errors,
+                'unfinished': unfinished, 'names': list(names)}
+    finally:
+        sched.release_all()
+        S._world[0] = None
+        for k in names:
+            t = sched.threads[k].thread
+            if t is not None:
+                t.join(20)
+        _uninstall_conc(env, saved)
+        env.drop_cache()
+
+
+def oracle_conc(scn, res):
+    """The statement on an interleaved run.  Genuineness, variant, freshness, Age, no-store and no-cache are
+    evaluated for every response that did not come from the handler; the invalidation clause only where the order
+    of the requests is unambiguous (producer finished before the POST began, POST finished before the GET began)."""
+    bad = []
+    delay = scn['cfg']['delay']
+    prods = res['prods']
+    prod_thread = {}
+    for k, o in res['obs'].items():
+        if o is not None and o['handler_gen'] is not None:
+            prod_thread[o['handler_gen']] = k
+    vary_seen = {}
+    for g, p in prods.items():
+        if p['status'] < 500:
+            vary_seen.setdefault(tuple(p['url']), set()).add(tuple(sorted(p['vary'])))
+    for k, o in sorted(res['obs'].items()):
+        if o is None:
+            continue
+        op = scn['reqs'][k]
+        _, method, path, qs, hdrs, pragma, cc, plan = op
+        url = (path, qs)
+        if o['handler_gen'] is not None and o['flags'] and o['flags'][0]:
+            bad.append(('thread %d: handler ran but request.cached is true' % k, 'cached_flag_wrong'))
+        if o['handler_gen'] is not None or o['status'] == 400:
+            continue
+        where = 'thread %d %s %s?%s' % (k, method, path, qs)
+        try:
+            g = int(o['xgen'])
+        except (TypeError, ValueError):
+            g = None
+        p = prods.get(g)
+        if p is None:
+            bad.append(('%s: response (status %s) came neither from the handler nor from a stored handler response'
+                        % (where, o['status']), 'hit_unknown_generation'))
+            continue
+        bad += _check_hit(where, o, op, p, g, delay, len(vary_seen.get(url, ())) > 1, overlapping=True)
+        pk = prod_thread.get(g)
+        for j, oj in res['obs'].items():
+            if oj is None or j == k:
+                continue
+            opj = scn['reqs'][j]
+            if opj[1] in INVALIDATING and (opj[2], opj[3]) == url:
+                sp, sj, sk = res['spans'].get(pk), res['spans'].get(j), res['spans'].get(k)
+                if sp and sj and sk and sp[1] is not None and sj[1] is not None and sp[1] < sj[0] and sj[1] < sk[0]:
+                    bad.append(('%s: served generation %d, produced and stored before the %s of thread %d began, '
+                                'after that request had finished' % (where, g, opj[1], j),
+                                'served_after_invalidation'))
+    return bad
+
+
+def gen_conc(rng):
+    delay = rng.choice([1, 2, 2, 3])
+    tight = rng.random() < 0.3
+    cfg = {'delay': delay,
+           'maxobjects': rng.choice([1, 2, 3]) if tight and rng.random() < 0.4 else 1000,
+           'maxobj_size': rng.choice([13, 21]) if tight and rng.random() < 0.3 else 100000,
+           'maxsize': rng.choice([13, 25, 33, 41]) if tight and rng.random() < 0.6 else 10000000}
+    n = rng.choice([2, 2, 3, 3, 4])
+    same = rng.random() < 0.75
+    path, qs = rng.choice(PATHS[:2]), rng.choice(QUERIES[:2])
+    vary = rng.sample(HDRS, rng.choice([0, 1, 1, 2]))
+    vals = ['p', 'q']
+    reqs = []
+    for i in range(n):
+        u = (path, qs) if same or rng.random() < 0.5 else (rng.choice(PATHS[:2]), rng.choice(QUERIES[:2]))
+        method = rng.choices(['GET', 'HEAD', 'POST', 'DELETE'], weights=[80, 4, 12, 4])[0]
+        hd = {h: (vals[0] if rng.random() < 0.7 else rng.choice(vals)) for h in HDRS if rng.random() < 0.9}
+        r = rng.random()
+        cc = None
+        if r < 0.08:
+            cc = ['no-cache']
+        elif r < 0.2:
+            cc = ['max-age=%d' % rng.choice([0, 1, delay])]
+        elif r < 0.24:
+            cc = ['no-store']
+        elif r < 0.26:
+            cc = ['max-age=x']
+        pragma = ['no-cache'] if rng.random() < 0.04 else None
+        plan = {'vary': list(vary), 'size': rng.choices([0, 12, 20], weights=[6, 60, 34])[0],
+                'ns': rng.random() < 0.04, 'pnc': rng.random() < 0.03}
+        reqs.append(['R', method, u[0], u[1], hd, pragma, cc, plan])
+    plan = []
+    r = rng.random()
+    d = delay * TPS
+    waits = rng.random() < 0.75
+    labs = ['store.get', 'uc.get', 'uc.set', 'handler', 'cur.get', 'exp.setdefault', 'bucket.append', 'cur.set',
+            'ev.result=', 'ev.set', 'store.len', 'store.set', 'store.pop']
+    if r < 0.45 and n >= 3:
+        # stampede: the resource exists (thread 0 stored some variant), thread 1 misses another / the expired /
+        # the swept variant and is parked somewhere between its placeholder and the end of its put, thread 2 asks
+        # for the same variant
+        waits = rng.random() < 0.9
+        reqs[0][1] = 'GET'
+        reqs[0][5] = reqs[0][6] = None
+        reqs[0][7] = dict(reqs[0][7], size=12, ns=False, pnc=False)
+        for j in (1, 2):
+            reqs[j][2], reqs[j][3] = reqs[0][2], reqs[0][3]
+            if rng.random() < 0.85:
+                reqs[j][1] = 'GET'
+        if vary:
+            other = dict(reqs[0][4])
+            other[vary[0]] = 'q' if other.get(vary[0], '') != 'q' else 'p'
+            reqs[1][4] = dict(other)
+            reqs[2][4] = dict(other) if rng.random() < 0.85 else dict(reqs[0][4])
+            plan.append(['run', 0])
+        else:
+            reqs[1][4] = dict(reqs[0][4])
+            reqs[2][4] = dict(reqs[0][4])
+            plan += [['run', 0], ['T', rng.choice([d, d + 1, d + 4])], ['X']]
+        plan.append(['until', 1, rng.choice(['handler', 'handler', 'store.get', 'store.len', 'cur.get', 'exp.setdefault',
+                                             'bucket.append', 'uc.get', 'uc.set', 'ev.result=', 'ev.set', 'cur.set']),
+                     rng.choice([1, 1, 2])])
+        plan.append(['until', 2, rng.choice(['ev.wait', 'ev.wait', 'uc.get', 'ev.result?']), rng.choice([1, 1, 2])])
+        if rng.random() < 0.3:
+            plan.append(['T', rng.choice([1, 4, d, d + 1])])
+    elif r < 0.65:
+        # a sequential prefix (populate), clock near the expiry boundary, then everything interleaved
+        k = rng.choice([1, 1, 2])
+        for j in range(min(k, n - 1)):
+            plan.append(['run', j])
+        if rng.random() < 0.7:
+            plan.append(['T', rng.choice([1, d - 1, d, d + 1, d + 4, 2 * d])])
+        if rng.random() < 0.3:
+            plan.append(['X'])
+    elif r < 0.85:
+        # two threads parked at chosen accesses, then the rest
+        plan.append(['until', 0, rng.choice(labs), rng.choice([1, 1, 2])])
+        plan.append(['until', 1, rng.choice(labs), rng.choice([1, 1, 2])])
+        if rng.random() < 0.3:
+            plan.append(['T', rng.choice([d, d + 1, 1])])
+    return {'cfg': cfg, 'waits': waits, 'reqs': reqs, 'plan': plan, 'seed': rng.randrange(1 << 30)}
+
+
+def _examine_conc(scn):
+    import random
+    res = run_conc(scn, random.Random(scn.get('seed', 0)))
+    toks = {k: (_done_token(o) if o is not None else 'EXC') for k, o in res['obs'].items()}
+    return {'acts': res['acts'], 'snaps': res['snaps'], 'bad': oracle_conc(scn, res), 'toks': toks,
+            'errors': res['errors'], 'unfinished': res['unfinished'],
+            'nhit': sum(1 for t in toks.values() if t.startswith('H'))}
+
+
+def _examine_conc_many(scns):
+    return [_examine_conc(s) for s in scns]
+
+
+def check_conc(ctx, scns, procs=None):
+    if not scns:
+        return
+    if procs and procs > 1 and len(scns) >= 4 * procs:
+        k = (len(scns) + procs * 4 - 1) // (procs * 4)
+        chunks = [scns[i:i + k] for i in range(0, len(scns), k)]
+        results = [r for chunk in common.parallel_map(_examine_conc_many, chunks, procs=procs) for r in chunk]
+    else:
+        results = _examine_conc_many(scns)
+    lines = [conc_line(s, r['acts']) for s, r in zip(scns, results)]
+    model_out = ctx.model(lines)
+    for idx, (scn, r) in enumerate(zip(scns, results)):
+        case = {'conc': dict(scn, acts=r['acts'], plan=None)}
+        ctx.case(case, nontrivial=(r['nhit'] > 0 or any('ev.wait' in s for s in r['snaps'][-1:])), key=lines[idx])
+        ctx.count('conc:threads:%d' % len(scn['reqs']))
+        ctx.count('conc:acts:%02d-%02d' % (len(r['acts']) // 20 * 20, len(r['acts']) // 20 * 20 + 19))
+        for t in r['toks'].values():
+            ctx.count('conc:outcome:' + ('hit' if t[0] == 'H' else 'handler' if t[0] == 'M' else t))
+        for a in r['acts']:
+            ctx.count('conc:act:' + a[0])
+        if any('ev.wait' in s for s in r['snaps']):
+            ctx.count('conc:some-thread-waited')
+        if r['unfinished']:
+            raise common.HarnessError('interleaving scenario left threads unfinished: %r' % (r['unfinished'],))
+        for what, sig in r['bad']:
+            ctx.oracle_fail(case, 'interleaving scenario: ' + what, 'conc:' + sig)
+        if model_out is not None:
+            ctx.compared()
+            if r['bad']:
+                continue
+            msn = model_out[idx].split(' ') if model_out[idx] else []
+            if msn != r['snaps']:
+                first = next((i for i, (a, b) in enumerate(zip(r['snaps'], msn)) if a != b), min(len(msn), len(r['snaps'])))
+                impl = r['snaps'][first] if first < len(r['snaps']) else '(no snapshot)'
+                mod = msn[first] if first < len(msn) else '(no snapshot)'
+                ctx.disagree(case, impl, mod, 'interleaving scenario: shared state / pending accesses differ after act %d '
+                             '(%s) of %d' % (first, r['acts'][first] if first < len(r['acts']) else '-', len(r['acts'])))
+
+
+# ----------------------------------------------------------------------------------------------
 # canonical forms
 # ----------------------------------------------------------------------------------------------
 def hexs(s):
@@ -612,8 +1096,13 @@ def canon_real(res):
 
 
 def canon_model(line):
+    """(tokens, tail, seq) of a driver line for a sequential history; seq is 'ok' when the interleaving model,
+    run under the sequential schedule, agrees with the sequential model (else its own line)."""
+    seq = 'ok'
+    if ' seq=' in line:
+        line, seq = line.split(' seq=', 1)
     head, tail = line.split(' |', 1) if ' |' in line else ('', line.lstrip('|'))
-    return head.split(' ') if head else [], '|' + tail
+    return head.split(' ') if head else [], '|' + tail, seq
 
 
 # ----------------------------------------------------------------------------------------------
@@ -625,6 +1114,77 @@ def _max_ages(cc):
         if v.startswith('max-age=') and v[8:].isdigit() and v[8:].isascii():
             out.append(int(v[8:]))
     return out
+
+
+def _check_hit(where, o, op, p, g, delay, unstable, overlapping=False):
+    """The clauses of the statement about ONE response that did not come from the handler (`o`, answering request
+    `op`) and the handler production `p` (generation g) it claims to be: independent of the order of requests."""
+    bad = []
+    _, method, path, qs, hdrs, pragma, cc, plan = op
+    url = (path, qs)
+    # the producing response was produced and delivered to its end
+    if not p['complete']:
+        bad.append(('%s: served generation %d, a response whose delivery broke off (handler body '
+                    'failed mid-stream or its client went away)' % (where, g),
+                    'hit_incomplete_production'))
+    # identical in status, body and stored headers (Content-Length is framing: a streamed original
+    # has none)
+    want_body = '' if method == 'HEAD' else p['body']
+    hs = sorted(tuple(x) for x in o['headers'] if x[0] not in ('Age', 'Content-Length'))
+    ps = sorted(tuple(x) for x in p['headers'] if x[0] not in ('Age', 'Content-Length'))
+    if want_body is None:
+        want_body = o['body']
+    if o['status'] != p['status'] or o['body'] != want_body or hs != ps:
+        bad.append(('%s: cached response differs from what the handler produced as generation %d '
+                    '(status %s/%s, body %r/%r, headers %s/%s)'
+                    % (where, g, o['status'], p['status'], o['body'][:20], want_body[:20], hs, ps),
+                    'hit_not_identical'))
+    # same URL and query string
+    if tuple(p['url']) != url:
+        sig = 'hit_other_url'
+        if (p['url'][0] + ('?' + p['url'][1] if p['url'][1] else '')) == (path + ('?' + qs if qs else '')):
+            sig = 'N1:path_with_question_mark'
+        bad.append(('%s: served generation %d which was produced for %s' % (where, g, p['url']), sig))
+    # same value of every request header named in that response's Vary
+    for hname in p['vary']:
+        if hdrs.get(hname, '') != p['hdrs'].get(hname, ''):
+            bad.append(('%s: served generation %d (Vary %s) produced for %s=%r to a request with %s=%r'
+                        % (where, g, p['vary'], hname, p['hdrs'].get(hname, ''), hname,
+                           hdrs.get(hname, '')),
+                        'F16b:vary_list_changed' if unstable else 'hit_vary_mismatch'))
+            break
+    # fresh: no longer ago than delay / the request's smaller max-age (whole seconds)
+    t_hit = o['time']
+    if overlapping and o.get('rtime') is not None:
+        t_hit = o['rtime']        # the clock moved while the request was in progress: its response.time counts
+    elapsed = int(t_hit - p['time'])
+    limit = delay
+    ma = _max_ages(cc)
+    if ma:
+        limit = min(limit, max(ma))
+    # (requests that overlap in time: the reader's response.time may precede the producer's)
+    if (t_hit < p['time'] and not overlapping) or elapsed > limit:
+        sig = 'hit_stale'
+        if ma and elapsed > delay and elapsed <= max(ma):
+            sig = 'F16a:max_age_beyond_delay'
+        bad.append(('%s: served generation %d produced %s s ago, limit %d s (delay %d, request '
+                    'max-age %s)' % (where, g, t_hit - p['time'], limit, delay, ma or None), sig))
+    # Age = elapsed whole seconds (a request in progress while the clock moves: any instant of it)
+    ages = {str(elapsed)}
+    if overlapping:
+        ages = {str(a) for a in range(elapsed, max(elapsed, int(o['time'] - p['time'])) + 1)}
+    if o['age'] not in ages:
+        bad.append(('%s: Age header %r, elapsed whole seconds %d' % (where, o['age'], elapsed),
+                    'age_header_wrong'))
+    # never stored when marked no-store
+    if p['req_no_store'] or p['resp_no_store']:
+        bad.append(('%s: served generation %d although the %s was marked no-store'
+                    % (where, g, 'request' if p['req_no_store'] else 'response'), 'no_store_served'))
+    # request no-cache reaches the handler
+    if (pragma and 'no-cache' in pragma) or (cc and 'no-cache' in cc):
+        bad.append(('%s: request carried no-cache but the handler was not reached' % where,
+                    'no_cache_request_served_from_cache'))
+    return bad
 
 
 def oracle(case, res):
@@ -660,63 +1220,12 @@ def oracle(case, res):
                 bad.append(('%s: response (status %s) came neither from the handler nor from a stored handler '
                             'response' % (where, o['status']), 'hit_unknown_generation'))
             else:
-                # the producing response was produced and delivered to its end
-                if not p['complete']:
-                    bad.append(('%s: served generation %d, a response whose delivery broke off (handler body '
-                                'failed mid-stream or its client went away)' % (where, g),
-                                'hit_incomplete_production'))
-                # identical in status, body and stored headers (Content-Length is framing: a streamed original
-                # has none)
-                want_body = '' if method == 'HEAD' else p['body']
-                hs = sorted(tuple(x) for x in o['headers'] if x[0] not in ('Age', 'Content-Length'))
-                ps = sorted(tuple(x) for x in p['headers'] if x[0] not in ('Age', 'Content-Length'))
-                if want_body is None:
-                    want_body = o['body']
-                if o['status'] != p['status'] or o['body'] != want_body or hs != ps:
-                    bad.append(('%s: cached response differs from what the handler produced as generation %d '
-                                '(status %s/%s, body %r/%r, headers %s/%s)'
-                                % (where, g, o['status'], p['status'], o['body'][:20], want_body[:20], hs, ps),
-                                'hit_not_identical'))
-                # same URL and query string
-                if tuple(p['url']) != url:
-                    sig = 'hit_other_url'
-                    if (p['url'][0] + ('?' + p['url'][1] if p['url'][1] else '')) == (path + ('?' + qs if qs else '')):
-                        sig = 'N1:path_with_question_mark'
-                    bad.append(('%s: served generation %d which was produced for %s' % (where, g, p['url']), sig))
-                # same value of every request header named in that response's Vary
-                for hname in p['vary']:
-                    if hdrs.get(hname, '') != p['hdrs'].get(hname, ''):
-                        unstable = len(vary_seen.get(url, ())) > 1
-                        bad.append(('%s: served generation %d (Vary %s) produced for %s=%r to a request with %s=%r'
-                                    % (where, g, p['vary'], hname, p['hdrs'].get(hname, ''), hname,
-                                       hdrs.get(hname, '')),
-                                    'F16b:vary_list_changed' if unstable else 'hit_vary_mismatch'))
-                        break
-                # fresh: no longer ago than delay / the request's smaller max-age (whole seconds)
-                elapsed = int(o['time'] - p['time'])
-                limit = delay
-                ma = _max_ages(cc)
-                if ma:
-                    limit = min(limit, max(ma))
-                if o['time'] < p['time'] or elapsed > limit:
-                    sig = 'hit_stale'
-                    if ma and elapsed > delay and elapsed <= max(ma):
-                        sig = 'F16a:max_age_beyond_delay'
-                    bad.append(('%s: served generation %d produced %s s ago, limit %d s (delay %d, request '
-                                'max-age %s)' % (where, g, o['time'] - p['time'], limit, delay, ma or None), sig))
-                # Age = elapsed whole seconds
-                if o['age'] != str(elapsed):
-                    bad.append(('%s: Age header %r, elapsed whole seconds %d' % (where, o['age'], elapsed),
-                                'age_header_wrong'))
+                bad += _check_hit(where, o, op, p, g, delay, len(vary_seen.get(url, ())) > 1)
                 # not across an invalidating request
                 if url in inval_time_idx and prod_idx.get(g, -1) < inval_time_idx[url]:
                     bad.append(('%s: served generation %d stored before the %s at op %d'
                                 % (where, g, case['ops'][inval_time_idx[url]][1], inval_time_idx[url]),
                                 'served_after_invalidation'))
-                # never stored when marked no-store
-                if p['req_no_store'] or p['resp_no_store']:
-                    bad.append(('%s: served generation %d although the %s was marked no-store'
-                                % (where, g, 'request' if p['req_no_store'] else 'response'), 'no_store_served'))
             if o['flags'] is not None and p is not None and not o['flags'][0]:
                 bad.append(('%s: served from the cache but request.cached is %r' % (where, o['flags'][0]),
                             'cached_flag_wrong'))
@@ -724,8 +1233,8 @@ def oracle(case, res):
             if last_req.get(url) in INVALIDATING:
                 bad.append(('%s: directly after a %s to the same URL the handler was not reached'
                             % (where, last_req[url]), 'served_after_invalidation'))
-            # request no-cache reaches the handler
-            if (pragma and 'no-cache' in pragma) or (cc and 'no-cache' in cc):
+            # request no-cache reaches the handler (part of _check_hit when the generation is known)
+            if p is None and ((pragma and 'no-cache' in pragma) or (cc and 'no-cache' in cc)):
                 bad.append(('%s: request carried no-cache but the handler was not reached' % where,
                             'no_cache_request_served_from_cache'))
         last_req[url] = method
@@ -941,7 +1450,10 @@ def check_cases(ctx, cases, compare=True, procs=None):
             ctx.oracle_fail(small, what, sig)
         if model_out is not None:
             ctx.compared()
-            mtoks, mtail = canon_model(model_out[idx])
+            mtoks, mtail, mseq = canon_model(model_out[idx])
+            if mseq != 'ok':
+                ctx.disagree(case, ' '.join(mtoks) + ' ' + mtail, mseq,
+                             'the interleaving model under the sequential schedule differs from the sequential model')
             if r['bad']:
                 continue          # the oracle already speaks for this case
             if mtoks != r['toks'] or mtail != r['tail']:
@@ -963,7 +1475,7 @@ def _differs(ctx, case):
         if r['bad']:
             return False
         m = canon_model(ctx.model([model_line(case)])[0])
-        return m[0] != r['toks'] or m[1] != r['tail']
+        return m[0] != r['toks'] or m[1] != r['tail'] or m[2] != 'ok'
     except common.HarnessError:
         raise
     except Exception:
@@ -1041,12 +1553,23 @@ def run(ctx):
         c = witness_case(e)
         if c is not None:
             check_cases(ctx, [c])
-    check_cases(ctx, [c for c in corpus_cases() if 'stampede' not in c])
+    check_cases(ctx, [c for c in corpus_cases() if 'stampede' not in c and 'conc' not in c])
     check_stampede(ctx, [c['stampede'] for c in corpus_cases() if 'stampede' in c])
     # anti-stampede placeholder under two real, gated request threads (oracle only; the model is sequential)
     check_stampede(ctx, [gen_stampede(ctx.rng) for _ in range(ctx.budget(60, 1500))])
-    n = ctx.budget(2000, 150000)
     procs = min(ctx.budget(8, 16), os.cpu_count() or 4)
+    # interleavings: real request threads + the real expiry thread, one shared-state access per step, every
+    # step's shared state compared with CpModel.CacheConc
+    check_conc(ctx, [c['conc'] for c in corpus_cases() if 'conc' in c])
+    nconc = ctx.budget(600, 40000)
+    done = 0
+    while done < nconc:
+        m = min(4000, nconc - done)
+        check_conc(ctx, [gen_conc(ctx.rng) for _ in range(m)], procs=procs)
+        done += m
+        if ctx.oracle_failures or len(ctx.disagreements) > 3:
+            break
+    n = ctx.budget(2000, 150000)
     done = 0
     while done < n:
         m = min(6000, n - done)
@@ -1072,6 +1595,17 @@ def search(ctx, around=None):
 
 
 def replay(ctx, case):
+    if 'conc' in case:
+        scn = case['conc']
+        r = _examine_conc(scn)
+        m = ctx.model([conc_line(scn, r['acts'])])
+        msn = m[0].split(' ') if m else []
+        for i, a in enumerate(r['acts']):
+            print('act %2d %-8s impl : %s' % (i, a, r['snaps'][i]))
+            if i < len(msn) and msn[i] != r['snaps'][i]:
+                print('%16s model: %s' % ('', msn[i]))
+        check_conc(ctx, [scn])
+        return
     if 'stampede' in case:
         res = run_stampede(case['stampede'])
         print('scenario:', json.dumps(case['stampede']))
